@@ -24,7 +24,9 @@ EstimatorPairs  == {"Tilt.quaternion", "Tilt.rotmat", "Tilt.angles", "Tilt.acc-o
                     "OLEQ.NED", "OLEQ.ENU", "FAMC", "FQA", "FQA.acc-only", "AQUA.acc-mag", "AQUA.acc-only",
                     "Complementary.am_estimation", "Complementary.am_estimation.acc-only",
                     \* a non-default weights option (not normalised): the option is honoured the same way on both paths
-                    "FLAE.symbolic[weights]", "FLAE.eig[weights]", "FLAE.newton[weights]", "QUEST[weights]", "Davenport[weights]", "OLEQ.NED[weights]"}
+                    "FLAE.symbolic[weights]", "FLAE.eig[weights]", "FLAE.newton[weights]", "QUEST[weights]", "Davenport[weights]", "OLEQ.NED[weights]",
+                    \* every option left to its default on both paths; an attribute published next to Q
+                    "FLAE[defaults]", "QUEST[defaults]", "Davenport[defaults]", "FQA[defaults]", "TRIAD[defaults]", "Tilt.angles-attribute"}
 (* helpers of the frames / orientation modules offered for one 3-vector and for N of them *)
 HelperPairs     == {"ned2enu", "enu2ned", "am2angles"}
 TwinPairs == ConversionPairs \cup MethodPairs \cup MetricPairs \cup EstimatorPairs \cup HelperPairs
